@@ -7,7 +7,7 @@
     explicitly; [Properties/C01.v] instantiates it once that file is available. *)
 From Coq Require Import ZArith NArith List Bool String Lia.
 From DL Require Import Lib.Bytes Lib.F64 Lua.Syntax Lua.Sem Model.Evaluator Model.DefaultRules
-  Proof.SemFacts Proof.DefaultRulesSem Proof.DefaultRulesSoundBlock.
+  Proof.SemFacts Proof.DefaultRulesSem Proof.DefaultRulesSoundBlock Proof.DefaultRulesSoundExpr.
 Import ListNotations.
 Open Scope N_scope.
 
@@ -51,3 +51,125 @@ Proof.
 Qed.
 
 End Fuel.
+
+(** * remove_nil_declaration, trailing [nil]s: [local a, b, c = e, nil, nil] and
+    [local a, b, c = e] (as many values as variables, every [nil] behind the other values, so
+    the variables keep their order and the same cells are bound to the same names) *)
+
+Definition eval1_fuel_mono (d : dialect) : Prop :=
+  forall n m rho va e s v s', (n <= m)%nat ->
+    eval1 d n rho va e s = Ok v s' -> eval1 d m rho va e s = Ok v s'.
+Definition eval_list_fuel_mono (d : dialect) : Prop :=
+  forall n m rho va es s vs s', (n <= m)%nat ->
+    eval_list d n rho va es s = Ok vs s' -> eval_list d m rho va es s = Ok vs s'.
+
+Lemma map_last_cons {A} (f : A -> A) x y l : map_last f (x :: y :: l) = x :: map_last f (y :: l).
+Proof. reflexivity. Qed.
+Lemma map_last_nonempty {A} (f : A -> A) y l : exists z l', map_last f (y :: l) = z :: l'.
+Proof. destruct l; cbn [map_last]; eauto. Qed.
+
+Lemma split_vars_trailing : forall es xs k,
+  List.length xs = (List.length es + k)%nat -> forallb (fun e => negb (is_nil e)) es = true ->
+  split_vars xs (es ++ repeat ENil k) = (firstn (List.length es) xs, skipn (List.length es) xs).
+Proof.
+  induction es as [|e es IH]; intros xs k Hl Hn.
+  - cbn [app List.length firstn skipn plus] in *. rewrite <- Hl. apply split_vars_nils.
+  - destruct xs as [|x xs]; [discriminate|]. cbn [forallb] in Hn. apply andb_true_iff in Hn as [He Hn].
+    cbn [app split_vars List.length firstn skipn]. rewrite (IH xs k) by (auto; cbn in Hl; lia).
+    destruct (is_nil e); [discriminate|]. reflexivity.
+Qed.
+
+Lemma filter_trailing : forall es k, forallb (fun e => negb (is_nil e)) es = true ->
+  filter (fun e => negb (is_nil e)) (es ++ repeat ENil k) = es.
+Proof.
+  induction es as [|e es IH]; intros k Hn; cbn [app].
+  - apply filter_nils.
+  - cbn [forallb] in Hn. apply andb_true_iff in Hn as [He Hn]. cbn [filter]. rewrite He, IH; auto.
+Qed.
+
+Lemma rw_nil_declaration_trailing xs es k :
+  (1 <= k)%nat -> List.length xs = (List.length es + k)%nat ->
+  forallb (fun e => negb (is_nil e)) es = true -> names_distinct (map param_name xs) = true ->
+  rw_nil_declaration (SLocal false xs (es ++ repeat ENil k)) = SLocal false xs (map_last paren_if_multi es).
+Proof.
+  intros Hk Hl Hn Hd. unfold rw_nil_declaration.
+  assert (List.length (es ++ repeat ENil k) = List.length xs) as Hlen.
+  { rewrite app_length, repeat_length. lia. }
+  assert (firstn (List.length xs) (es ++ repeat ENil k)
+          ++ filter hse (skipn (List.length xs) (es ++ repeat ENil k)) = es ++ repeat ENil k) as ->.
+  { rewrite firstn_all2 by lia. rewrite skipn_all2 by lia. apply app_nil_r. }
+  rewrite Hlen, Nat.ltb_irrefl, Hd. cbn [andb negb].
+  assert (existsb is_nil (es ++ repeat ENil k) = true) as ->.
+  { rewrite existsb_app. destruct k; [lia|]. cbn. apply orb_true_r. }
+  cbn [negb]. rewrite (split_vars_trailing _ _ _ Hl Hn), (filter_trailing _ _ Hn), firstn_skipn. reflexivity.
+Qed.
+
+Section FuelNil.
+Variable d : dialect.
+Hypothesis eval1_mono : eval1_fuel_mono d.
+Hypothesis eval_list_mono : eval_list_fuel_mono d.
+
+Lemma eval_list_repeat_nil k n rho va s vs s' :
+  eval_list d n rho va (repeat ENil k) s = Ok vs s' -> vs = repeat VNil k /\ s' = s.
+Proof. apply eval_list_nils. Qed.
+
+Lemma paren_if_multi_eval_list e n rho va s v s' :
+  eval1 d n rho va e s = Ok v s' -> exists n', eval_list d n' rho va [paren_if_multi e] s = Ok [v] s'.
+Proof.
+  intros H. destruct n as [|n]; [discriminate|].
+  destruct (paren_if_multi_eval _ _ _ _ _ _ _ _ H) as [n' Hn'].
+  exists (S n'). rewrite eval_list_S_one. exact Hn'.
+Qed.
+
+Lemma eval_list_trailing : forall es k n rho va s vs s', (1 <= k)%nat ->
+  eval_list d n rho va (es ++ repeat ENil k) s = Ok vs s' ->
+  exists n' ws, eval_list d n' rho va (map_last paren_if_multi es) s = Ok ws s' /\ vs = ws ++ repeat VNil k.
+Proof.
+  induction es as [|e es IH]; intros k n rho va s vs s' Hk H.
+  - cbn [app] in H. apply eval_list_nils in H as [-> ->]. exists 1%nat, []. split; reflexivity.
+  - destruct n as [|n]; [discriminate|]. destruct es as [|e2 rest].
+    + destruct k as [|k]; [lia|]. cbn [app repeat] in H. rewrite eval_list_S_cons in H.
+      apply bind_ok in H as (v & s1 & Hv & H). apply bind_ok in H as (ws & s2 & Hw & H). inv_ok H. subst.
+      change (ENil :: repeat ENil k) with (repeat ENil (S k)) in Hw. apply eval_list_nils in Hw as [-> ->].
+      destruct (paren_if_multi_eval_list _ _ _ _ _ _ _ Hv) as [n' Hn'].
+      exists n', [v]. split; [exact Hn'|reflexivity].
+    + change ((e :: e2 :: rest) ++ repeat ENil k) with (e :: e2 :: (rest ++ repeat ENil k)) in H.
+      rewrite eval_list_S_cons in H.
+      apply bind_ok in H as (v & s1 & Hv & H). apply bind_ok in H as (ws & s2 & Hw & H). inv_ok H. subst.
+      change (e2 :: rest ++ repeat ENil k) with ((e2 :: rest) ++ repeat ENil k) in Hw.
+      destruct (IH _ _ _ _ _ _ _ Hk Hw) as (n1 & ws' & Hn1 & ->).
+      rewrite map_last_cons. destruct (map_last_nonempty paren_if_multi e2 rest) as (z & l' & Ez).
+      rewrite Ez in *. exists (S (Nat.max n n1)), (v :: ws'). split; [|reflexivity].
+      rewrite eval_list_S_cons. unfold bind.
+      rewrite (eval1_mono _ (Nat.max n n1) _ _ _ _ _ _ (Nat.le_max_l _ _) Hv).
+      rewrite (eval_list_mono _ (Nat.max n n1) _ _ _ _ _ _ (Nat.le_max_r _ _) Hn1). reflexivity.
+Qed.
+
+Lemma local_go_padding : forall xs ws k acc s,
+  local_go xs (ws ++ repeat VNil k) acc s = local_go xs ws acc s.
+Proof.
+  induction xs as [|x xs IH]; intros ws k acc s; [reflexivity|]. cbn [local_go].
+  destruct ws as [|w ws].
+  - cbn [app]. assert (arg (repeat VNil k) 0 = arg [] 0) as -> by (destruct k; reflexivity).
+    apply bind_eq. intros a s1 _. destruct k as [|k]; [reflexivity|]. cbn [repeat tl].
+    apply (IH [] k).
+  - cbn [app tl]. change (arg (w :: ws ++ repeat VNil k) 0) with (arg (w :: ws) 0).
+    apply bind_eq. intros a s1 _. apply IH.
+Qed.
+
+Theorem nil_decl_trailing_sound : forall xs es k n rho va s r s',
+  (1 <= k)%nat -> List.length xs = (List.length es + k)%nat ->
+  forallb (fun e => negb (is_nil e)) es = true -> names_distinct (map param_name xs) = true ->
+  exec_stmt d n rho va (SLocal false xs (es ++ repeat ENil k)) s = Ok r s' ->
+  exists n', exec_stmt d n' rho va (rw_nil_declaration (SLocal false xs (es ++ repeat ENil k))) s = Ok r s'.
+Proof.
+  intros xs es k n rho va s r s' Hk Hl Hn Hd H.
+  rewrite (rw_nil_declaration_trailing _ _ _ Hk Hl Hn Hd).
+  destruct n as [|n]; [discriminate|]. rewrite exec_stmt_S_local in H.
+  apply bind_ok in H as (vs & s1 & Hv & H).
+  destruct (eval_list_trailing _ _ _ _ _ _ _ _ Hk Hv) as (n' & ws & Hn' & ->).
+  exists (S n'). rewrite exec_stmt_S_local. unfold bind at 1. rewrite Hn'.
+  unfold bind in *. rewrite local_go_padding in H. exact H.
+Qed.
+
+End FuelNil.
